@@ -24,6 +24,7 @@ macro_rules! props {
 props! {
     c01 => "C01",
     c03 => "C03",
+    #[cfg(feature = "full")] c04 => "C04",
     c05 => "C05",
     c13 => "C13",
     c17 => "C17",
@@ -34,8 +35,10 @@ props! {
     #[cfg(feature = "full")] c10 => "C10",
     #[cfg(feature = "full")] c11 => "C11",
     #[cfg(feature = "full")] c12 => "C12",
+    #[cfg(feature = "full")] c14 => "C14",
     #[cfg(feature = "full")] c15 => "C15",
     #[cfg(feature = "full")] c16 => "C16",
+    #[cfg(feature = "full")] c18 => "C18",
     #[cfg(feature = "full")] c19 => "C19",
     #[cfg(feature = "full")] c20 => "C20",
 }
